@@ -1659,7 +1659,7 @@ var _ uuid.UUID
 // C14: the dataset catalogue as a replicated state machine. cat(dm) = dm.datasets : id -> dataset (with its meta record).
 
 //@ spec noNilPartitions(d *Dataset) bool = forall i int :: 0 <= i && i < len(d.partitions) ==> d.partitions[i] != nil
-//@ spec dmwf(dm *DatasetManager) bool = dm.datasets != nil && dm.notificator != nil && dm.allocator != nil && dm.clusterConn != nil
+//@ spec dmwf(dm *DatasetManager) bool = dm.datasets != nil && dm.notificator != nil && dm.allocator != nil && dm.allocator.partitions != nil && dm.clusterConn != nil
 
 // newDataset (assumed): builds the in-memory dataset from the decoded record; fails only on malformed partition ids
 // dependencies of newPartition (assumed): a new index is empty and configured with the package defaults; the WAL handle and the
